@@ -147,11 +147,11 @@ def corrected_until():
 
 def attribute(f, scenario, site, trace, names, start, sig):
     """Known-finding attribution by differential substitution."""
-    if sig == "rejected-satisfying-trace" and until_offset_bug(f):
+    if sig in ("rejected-satisfying-trace", "early-rejection-unsound") and until_offset_bug(f):
         with corrected_until():
             v2 = run_one(scenario, site, trace, names)
         if judge(f, trace, names, v2, start) is None:
-            return "rejected-satisfying-trace:rv_ltl-until-at-offset"
+            return sig + ":rv_ltl-until-at-offset"
     return sig
 
 
